@@ -104,7 +104,7 @@ BIG_V = 16             # vocabularies beyond this: rows with pairwise DISTINCT l
 def safe_rows(V, qbits, kind):
     """A fixed pseudo-random table of logit rows per (V, qbits, kind).
     kind: "plain" | "zeros" (every row has at least one -inf and one finite entry) |
-    ("favour", e) (entry e is 0, the others are <= -3) | ("without", e) (entry e is -inf). Deterministic; cached.
+    ("favour", e) (entry e is 0, the others are <= -3) | ("without", e) (entry e is -inf) | ("rare", e, k) (entry e lowered by k). Deterministic; cached.
     V <= 16: multiples of 1/64 in [-6, 0], 6000 candidate rows. Larger vocabularies (size classes): 192
     candidate rows whose V logits are pairwise different multiples of 1/64 in [-max(385, 3V)/64, 0] (with 385
     values for a thousand tokens every row would be full of exact ties).
@@ -117,7 +117,8 @@ def safe_rows(V, qbits, kind):
     if key in _rows_cache:
         return _rows_cache[key]
     rs = np.random.RandomState(977 + 31 * V + (0 if kind == "plain" else 7 if kind == "zeros" else
-                                               13 + kind[1] if kind[0] == "favour" else 5003 + kind[1]))
+                                               13 + kind[1] if kind[0] == "favour" else
+                                               5003 + kind[1] if kind[0] == "without" else 9001 + kind[1]))
     big = V > BIG_V
     n = 192 if big else 6000
 
@@ -126,10 +127,12 @@ def safe_rows(V, qbits, kind):
             return rs.randint(0, hi, size=(n, V)).astype("float64")
         R = max(hi, 3 * V)      # a sample of V different values out of R, per row
         return rs.rand(n, R).argsort(1)[:, :V].astype("float64")
-    if kind in ("plain", "zeros") or kind[0] == "without":
+    if kind in ("plain", "zeros") or kind[0] in ("without", "rare"):
         rows = -draw(385) / 64.0
     if kind[0] == "without":
         rows[:, kind[1]] = float("-inf")        # token e impossible (V >= 2)
+    if kind[0] == "rare":
+        rows[:, kind[1]] -= float(kind[2])      # token e unlikely: its logit lowered by a whole number
     if kind == "zeros":
         mask = rs.rand(n, V) < 0.4
         mask[np.arange(n), rs.randint(0, V, size=n)] = True
@@ -217,6 +220,14 @@ def _hash_lm(V, qbits, opts, salt=0, dtype="float32", delta=None):
                     wr = safe_rows(V, qbits, ("without", ev))
                     wl[m] = wr.index_select(0, sel[m] % wr.size(0))
                 logits = torch.where(late.unsqueeze(1), wl, logits)
+            if opts.get("eos_rare") and not opts.get("uniform"):
+                # eos is unlikely at every step (its logit lowered by `eos_rare`): in a long search a path ends
+                # now and then and stays in the beam, ended, next to paths that go on for dozens of steps
+                e = ctx[:, 3].clamp(0, V - 1)
+                for ev in sorted(set(int(x) for x in e)):
+                    m = e == ev
+                    rr = safe_rows(V, qbits, ("rare", ev, int(opts["eos_rare"])))
+                    logits = torch.where(m.unsqueeze(1), rr.index_select(0, sel % rr.size(0)), logits)
             force = (ctx[:, 2] >= 0) & (ctx[:, 2] <= i)
             if bool(force.any()):
                 e = ctx[:, 3].clamp(0, V - 1)
@@ -325,6 +336,10 @@ def _rec_lm(V, opts):
                 logits = logits + h[:, j:j + 1] * self.out[j]
             if opts.get("scale"):
                 logits = logits * float(opts["scale"])
+            if opts.get("eos_rare"):
+                onehot = torch.zeros((hist.size(1), V), dtype=torch.bool).scatter_(
+                    1, ctx[:, 3].clamp(0, V - 1).unsqueeze(1), True)
+                logits = torch.where(onehot, logits - float(opts["eos_rare"]), logits)
             if opts.get("eos_late"):
                 late = (ctx[:, 2] > i).unsqueeze(1) & torch.zeros((hist.size(1), V), dtype=torch.bool).scatter_(
                     1, ctx[:, 3].clamp(0, V - 1).unsqueeze(1), True)
